@@ -291,7 +291,7 @@ Proof.
   destruct (c_capcount c <? c_captop c) eqn:E; [discriminate|].
   assert (B : forall x, In x (c_caps c) -> 0 <= x < c_captop c) by (intros x Hx; destruct (R x Hx) as [R1 R2]; specialize (R2 HT); lia).
   pose proof (ssorted_length_bound (c_caps c) 0 (c_captop c) S B) as LB.
-  unfold zlen in C. assert (c_capcount c = c_captop c) by lia.
+  pose proof (B 0 Z) as B0. unfold zlen in C. assert (c_capcount c = c_captop c) by lia.
   apply ssorted_dense; [exact S | intros x Hx; rewrite H; apply B; exact Hx | lia].
 Qed.
 
@@ -333,7 +333,7 @@ Theorem count_captures_table mco o p tb : count_captures mco o p = POk tb ->
 Proof.
   unfold Parser.count_captures. intros E.
   destruct (prescan_loop (S (length p)) mco (mkCS c_init o [] false) p) as [st| | | |] eqn:EL; cbn [pbind] in E; try discriminate.
-  pose proof (prescan_loop_cw _ _ _ _ _ cw_init EL) as W.
+  pose proof (prescan_loop_cw mco (S (length p)) (mkCS c_init o [] false) p st cw_init EL) as W.
   pose proof (prescan_loop_ok is_word_char to_lower simple_fold participates cat_in cat_name mco (S (length p)) (mkCS c_init o [] false) p (cinv_init mco) ltac:(lia)) as CI.
   rewrite EL in CI. set (c := cs_c st) in *.
   assert (GOAL : tbl_ok tb /\ incl (c_caps c) (t_caps tb)); [|destruct GOAL as [G1 G2]; split; [exact G1 | exists st; auto]].
@@ -382,17 +382,17 @@ Proof.
       destruct (capnumlist_of c1) as [nl|] eqn:Enl.
       * destruct (c_capnamelist c1) as [|s0 r0]; cbn [bind] in E; [discriminate|].
         destruct (merge_names nl (s0 :: r0) (aget0 s0 m1) m1) as [[l m']| | |] eqn:Emg; cbn [bind] in E; try discriminate.
-        inversion E; subst tb. rewrite <- Enl. apply FIN. intros HT s k Hk.
+        inversion E; subst tb. apply FIN. intros HT s k Hk.
         destruct (merge_vals _ _ _ _ _ _ Emg s k Hk) as [H1|H1]; [eauto | apply (JS HT); rewrite Enl; exact H1].
       * destruct (c_capnamelist c1) as [|s0 r0]; cbn [bind] in E; [discriminate|].
         destruct (merge_names (zrange (c_capcount c1)) (s0 :: r0) (aget0 s0 m1) m1) as [[l m']| | |] eqn:Emg; cbn [bind] in E; try discriminate.
-        inversion E; subst tb. rewrite <- Enl. apply FIN. intros HT s k Hk.
+        inversion E; subst tb. apply FIN. intros HT s k Hk.
         destruct (merge_vals _ _ _ _ _ _ Emg s k Hk) as [H1|H1]; [eauto | apply (JS HT); rewrite Enl; exact H1].
     + destruct (capnumlist_of c1) as [nl|] eqn:Enl.
       * cbn [bind] in E. destruct (merge_names nl [] (-1) []) as [[l m']| | |] eqn:Emg; cbn [bind] in E; try discriminate.
-        inversion E; subst tb. rewrite <- Enl. apply FIN. intros HT s k Hk.
+        inversion E; subst tb. apply FIN. intros HT s k Hk.
         destruct (merge_vals _ _ _ _ _ _ Emg s k Hk) as [H1|H1]; [discriminate | apply (JS HT); rewrite Enl; exact H1].
-      * inversion E; subst tb. rewrite <- Enl. apply FIN. auto.
+      * inversion E; subst tb. apply FIN. auto.
 Qed.
 
 End Table.
